@@ -151,5 +151,11 @@ def load(config="all", repo=None, crate="loom", target_dir=None):
     p = extract(config, repo, crate, target_dir)
     if p not in _loaded:
         with open(p) as fh:
-            _loaded[p] = Program(json.load(fh), config=config, path=p)
+            j = json.load(fh)
+        inlined = {}
+        if not os.environ.get("VERIF_NO_INLINE"):
+            from .normalize import inline_helpers
+            inlined = inline_helpers(j)
+        _loaded[p] = Program(j, config=config, path=p)
+        _loaded[p].inlined = inlined
     return _loaded[p]
